@@ -2340,12 +2340,8 @@ func tokenTypes() []simplexer.TokenType{
 		t(LT, methodOps["lt"]),
 		t(ADD_CHAIN, `[&~=]`),
 		t(MAIN_CHAIN, `[\.@$]`),
-		t(IF, `if\b`),
-		t(ELSE, `else\b`),
-		t(RETURN, `return\b`),
-		t(YIELD, `yield\b`),
-		t(RAISE, `raise\b`),
-		t(DEFER, `defer\b`),
+		// NOTE: reserved words are lexed as IDENT and converted in Lex()
+		// (otherwise names which contain a reserved word, like `iffy` or `if?`, are split)
 		t(IDENT, ident),
 		t(PRIVATE_IDENT, fmt.Sprintf(`_+(%s)?`, ident)),
 	}
@@ -2421,7 +2417,24 @@ func (l *Lexer) Lex(lval *yySymType) int {
 	}
 
 	l.Source = newSource
+
+	if token.Type.GetID() == IDENT {
+		if id, ok := reservedWords[token.Literal]; ok {
+			return id
+		}
+	}
+
 	return int(token.Type.GetID())
+}
+
+// reservedWords are identifiers which work as keywords.
+var reservedWords = map[string]int{
+	"if":     IF,
+	"else":   ELSE,
+	"return": RETURN,
+	"yield":  YIELD,
+	"raise":  RAISE,
+	"defer":  DEFER,
 }
 
 func (l *Lexer) unknownTokenErrMsg(err *simplexer.UnknownTokenError) string {
